@@ -39,15 +39,6 @@ theorem periodic_eq_repetition_sum {m : Nat} (B : Matrix (Fin m) (Fin n) ℂ)
   rw [smul_pow, Matrix.mul_smul]
 
 
-/-- **Source pin**: the statements of `calculate_control_matrix_periodic` as read by the translator
-are the ones this model was written for (determinant test with `np.isclose(·, 0)`, linear solve of
-`M X = 1 - T^G` where flagged invertible, `eye + sum(accumulate(repeat(T, G-1), matmul))`
-elsewhere, `B @ S` per frequency). Any edit of that function breaks this obligation. -/
-theorem periodic_source_shape :
-    Gen.periodicInvertibleTest = "np.isclose(nla.det(M), 0)" ∧
-    Gen.periodicBody = "eye = np.eye(total_propagator_liouville.shape[0]) ; T = np.multiply.outer(phases, total_propagator_liouville) ; M = eye - T ; if check_invertible: invertible = ~np.isclose(nla.det(M), 0) else: invertible = np.array(True) ; S = np.empty((*phases.shape, *total_propagator_liouville.shape), dtype=complex) ; S[invertible] = nla.solve(M[invertible], eye - nla.matrix_power(T[invertible], repeats)) ; if (~invertible).any(): S[~invertible] = eye + sum(accumulate(repeat(T[~invertible], repeats - 1), np.matmul)) ; control_matrix_tot = (control_matrix.transpose(2, 0, 1) @ S).transpose(1, 2, 0) ; return control_matrix_tot" :=
-  ⟨rfl, rfl⟩
-
 /-! ### the executable model refines to these statements -/
 
 theorem toMatrix_add {m k : Nat} (A B : Mat ℂ m k) :
